@@ -458,7 +458,7 @@ def point_event(f, e):
     return None
 
 
-def point_paths(f):
+def point_paths(f, accounting=True):
     out = set()
     limit = [0]
 
@@ -493,7 +493,7 @@ def point_paths(f):
         evs = list(evs)
         for e in f.blocks[b]['elems']:
             ev = point_event(f, e)
-            if ev:
+            if ev and (accounting or not (ev == 'splits++' or ev.startswith('account_'))):
                 evs.append(ev)
             if e.get('k') == 'return':
                 out.add(tuple(evs))
@@ -507,7 +507,7 @@ def point_paths(f):
     return out
 
 
-def sib1_point(cfg):
+def sib1_point(cfg, accounting=True):
     res = RuleResult('SIB-1p', 'db and olc_db make the same algorithmic decisions in get / insert / remove and in the add / remove helpers of every node class: the sets of event sequences (child lookup, prefix comparison, key shifts, leaf match, node creation by class, helper calls, accounting) along the acyclic paths agree once lock events, restart branches and the leaf cache are projected away')
     for kind in ('unsigned long', 'std::span'):
         def kk(c):
@@ -528,7 +528,7 @@ def sib1_point(cfg):
             res.count('function pairs')
             res.functions.add(fa.sig)
             res.functions.add(fb.sig)
-            pa, pb = point_paths(fa), point_paths(fb)
+            pa, pb = point_paths(fa, accounting), point_paths(fb, accounting)
             only_a, only_b = sorted(pa - pb), sorted(pb - pa)
             ok = not only_a and not only_b
             res.ob(ok, {'rule': 'SIB-1p', 'pair': '%s (%s keys)' % (name, 'u64' if kind == 'unsigned long' else 'key_view'), 'path_classes': len(pa), 'verdict': 'discharged' if ok else 'VIOLATION'})
